@@ -18,7 +18,7 @@ RULE_ROUTER = ('cases are TLC-generated histories of Router.tla (BFS: every hist
 def sub(pool, **kw):
     """constant substitutions for a pool suffix of MC_Router.tla"""
     s = {'Cfgs': 'Cfgs' + pool, 'Bases': 'Bases' + pool, 'HOps': 'HOps' + pool, 'ROps': 'ROps' + pool, 'COps': 'COps' + pool,
-         'UOps': 'UOps' + pool, 'Probes': 'Probes' + pool, 'ProbeMethods': 'Methods' + pool, 'CaseExtra': 'NoExtra', 'UrlProbes': 'NoUrls'}
+         'UOps': 'UOps' + pool, 'Probes': 'Probes' + pool, 'ProbeMethods': 'Methods' + pool, 'CaseExtra': 'NoExtra', 'UrlProbes': 'NoUrls', 'THProbes': 'NoUrls'}
     s.update(kw)
     return s
 
@@ -33,10 +33,10 @@ def mc_router(pool, name=None):
             'invariants': MC_INV, 'properties': MC_PROPS}
 
 
-def gen_bfs(pool, depth, name=None, extra='NoExtra', props=None, limit=None, sample=None, module='MC_Router', consts=None, rt=False, urls=None):
+def gen_bfs(pool, depth, name=None, extra='NoExtra', props=None, limit=None, sample=None, module='MC_Router', consts=None, rt=False, urls=None, th=None):
     c = {'Depth': depth, 'EmitAll': 'TRUE', 'Battery': '"last"', 'RoundTrip': 'TRUE' if rt else 'FALSE'}
     c.update(consts or {})
-    return {'kind': 'gen', 'name': name or ('bfs%s%d' % (pool, depth)), 'module': module, 'subst': sub(pool, CaseExtra=extra, UrlProbes=(urls or 'NoUrls')),
+    return {'kind': 'gen', 'name': name or ('bfs%s%d' % (pool, depth)), 'module': module, 'subst': sub(pool, CaseExtra=extra, UrlProbes=(urls or 'NoUrls'), THProbes=(th or 'NoUrls')),
             'consts': c, 'trace': 'Trace_Router', 'props': props, 'limit': limit, 'sample': sample}
 
 
@@ -51,8 +51,30 @@ def gen_sim(pool, depth, num, name=None, extra='NoExtra', props=None, seedoff=0,
             'trace': 'Trace_Router', 'props': props, 'seedoff': seedoff}
 
 
+RULE_HEAD = ('TLC enumerates every handler program up to the length bound over {SetHeader(2 keys x 2 values), WriteHeader(200|201|404), Write(0|1|3)}; '
+             'each program is installed as a GET handler on the real router and requested with GET and HEAD against a recording ResponseWriter; the trace '
+             'spec compares both with the response-writer model of Head.tla. Plus Router-family histories over method lists (pool X) for the HEAD/OPTIONS derivation rules. '
+             'A case is non-trivial unless it is a plain 404.')
+
+
+def head_stages(maxlen, sample=None):
+    sb = {'Steps': 'StepsH'}
+    return [{'kind': 'mc', 'name': 'head%d' % maxlen, 'module': 'MC_Head', 'subst': sb, 'consts': {'MaxLen': maxlen},
+             'invariants': ['C08_Consistent', 'GetCommitted'], 'workers': 8},
+            {'kind': 'gen', 'name': 'progs%d' % maxlen, 'module': 'MC_Head', 'subst': sb, 'consts': {'MaxLen': maxlen}, 'trace': 'Trace_Head',
+             'sample': sample, 'min_per_shard': 200}]
+
+
+def p_c08(q):
+    if q:
+        return head_stages(4) + [gen_bfs('X', 2, sample=0.12), gen_bfs('C', 1)]
+    return head_stages(5) + [mc_router('T'), gen_bfs('X', 2), gen_bfs('C', 2), gen_sim('X', 10, 60), gogen('mixed', 800)]
+
+
 def plan(prop, tier):
     q = tier == 'quick'
+    if prop == 'C08':
+        return {'stages': p_c08(q), 'rule': RULE_HEAD, 'assumptions': ASSUME_COMMON}
     if prop in ROUTER_PLANS:
         stages = ROUTER_PLANS[prop](q)
         return {'stages': stages, 'rule': RULE_ROUTER, 'assumptions': ASSUME_COMMON}
@@ -121,7 +143,30 @@ def p_c10(q):
             gen_bfs('B', 1, rt=True), gen_sim('A', 12, 40, rt=True)]
 
 
+def p_c19(q):
+    F = dict(module='MC_RouterF', extra='MirrorExtra', urls='UrlSetF', rt=True)
+    if q:
+        return [mc_router('T'), gen_bfs('F', 2, sample=0.25, **F), gen_sim('F', 8, 8, module='MC_RouterF', extra='MirrorExtra')]
+    return [mc_router('T'), gen_bfs('F', 2, **F), gen_bfs('F', 3, name='bfsF3', sample=0.02, **F), gen_sim('F', 14, 60, module='MC_RouterF', extra='MirrorExtra')]
+
+
+def p_c09(q):
+    F = dict(module='MC_RouterF')
+    if q:
+        return [mc_router('T'), gen_bfs('F', 2, sample=0.25, **F), gen_sim('F', 8, 8, module='MC_RouterF')]
+    return [mc_router('T'), gen_bfs('F', 2, **F), gen_bfs('F', 3, name='bfsF3', sample=0.02, **F), gen_sim('F', 14, 60, module='MC_RouterF')]
+
+
+def p_c18(q):
+    if q:
+        return [mc_router('T'), gen_bfs('C', 2, th='StdTH', sample=0.6), gen_bfs('X', 2, sample=0.1), gogen('mixed', 40)]
+    return [mc_router('T'), mc_router('C', 'routerC'), gen_bfs('C', 2, th='StdTH'), gen_bfs('X', 2, sample=0.5), gen_bfs('F', 2, module='MC_RouterF', sample=0.3),
+            gen_sim('C', 12, 60), gogen('mixed', 1000)]
+
+
 ROUTER_PLANS = {
+    'C18': p_c18,
+    'C19': p_c19, 'C09': p_c09,
     'C10': p_c10,
     'C01': p_c01, 'C02': p_c02, 'C03': p_c03, 'C04': p_c04, 'C05': p_c05, 'C17': p_c17,
     'T00': p_smoke, 'TA': p_dbg('A', 2), 'TB': p_dbg('B', 2), 'TC': p_dbg('C', 2), 'TX': p_dbg('X', 2),
